@@ -144,6 +144,15 @@ def run(chk):
     for data in YAMLS[:3]:
         for k in range(len(data)):
             inputs.append(('yaml', '-', data[:k]))
+    # every map key of a .vnacal / YAML document replaced by text that is not a valid property key or not the expected keyword
+    for name, data in cal_seeds[:2 if quick else 5] + [('-', y) for y in YAMLS[:2]]:
+        lines_ = data.split(b'\n')
+        keyed = [i for i, l in enumerate(lines_) if re.match(rb'^\s*(- )?[A-Za-z0-9_ ]+:', l)]
+        for i in keyed[:30 if quick else 200]:
+            for bad in (b'bad=key', b'a[', b'"k\\\\"', b'""'):
+                l = lines_[i]
+                m = re.match(rb'^(\s*(?:- )?)([A-Za-z0-9_ ]+)(:.*)$', l)
+                inputs.append(('cal' if name != '-' else 'yaml', name, b'\n'.join(lines_[:i] + [m.group(1) + bad + m.group(3)] + lines_[i + 1:])))
     for _ in range(nmut * 4):
         inputs.append((rng.choice(['vd', 'cal', 'yaml']), rng.choice(['x.npd', 'x.ts', 'x.s3p']), bytes(rng.randrange(256) for _ in range(rng.randint(0, 60)))))
     good_npd = '#NPD\n#:version 1.0\n#:ports 1\n#:frequencies 1\n#:parameters Sri\n#:z0 50 0j\n1e9 0.25 0.5\n'.encode().hex()
